@@ -711,7 +711,7 @@ func main() {
 				report(c, *env.Case, f)
 			}
 		}
-		n := c.Budget(2500, 60000)
+		n := c.Budget(2500, 250000)
 		t0 := time.Now()
 		// a correspondence difference does not end the run: the search goes on for an input on which the property
 		// itself fails (at most 3 differences and 3 judge failures are recorded)
